@@ -15,6 +15,7 @@ typedef struct {
     uint64_t step_limit; /* livelock bound */
     unsigned spin_thresh; /* consecutive pure loads => read-spinning */
     uint64_t clock0_ns;
+    uint64_t tick_ns;    /* virtual nanoseconds per scheduling point (default 1) */
 } ds_cfg;
 
 /* kinds for vsp() */
